@@ -772,7 +772,13 @@ impl DirectAddrUpdateState {
             Err(_) => {
                 #[cfg(iroh_verif)]
                 iroh_base::verif::event("direct_addr.schedule_run", || format!("busy {why:?}"));
-                let _ = self.want_update.insert(why);
+                // A remembered major update asks for a full report: a later non-major request
+                // is covered by it and must not downgrade it.
+                let pending_is_stronger =
+                    matches!(self.want_update, Some(pending) if pending.is_major() && !why.is_major());
+                if !pending_is_stronger {
+                    let _ = self.want_update.insert(why);
+                }
             }
         }
     }
